@@ -4,6 +4,31 @@ import json, os, sys
 HERE = os.path.dirname(os.path.dirname(os.path.abspath(__file__)))
 
 CHECKS = {
+ "C11": dict(
+   technique="model-based testing: exhaustive short store-histories + Hypothesis histories against a dict/longest-prefix model; variant-equality law",
+   text="Every history of <=2/3 stores (URL, serialized-LRU, stem-list and item forms mixed) over a 20-URL universe for the four trie classes x suffix_aware, with 40 queries after the last store; random histories with the variants' own options checked after every step; whenever the variant function maps a stored URL and a query to the same string the query must hit. Exhaustive within bounds.",
+   note="Trusted base: dict keyed by the class's public stem function minus 'p:' stems; linear longest-prefix search.",
+   design="§4 C11"),
+ "C12": dict(
+   technique="round-trip property-based testing: URL grammar (Hypothesis) + exhaustive shape panel, raw-component comparison by a reference splitter",
+   text="Round trip url -> LRU/stems -> url compared component-wise as raw strings by an independent RFC 3986 splitter, re-conversion, serialisation inverses and terminator; 107k-shape exhaustive panel (scheme forms x userinfo forms x special hosts x ports x paths x tails x suffix_aware) and random grammar URLs with every token class.",
+   note="Trusted base: vlib/urlref.split. Empty password/query/fragment == absent.",
+   design="§4 C12"),
+ "C13": dict(
+   technique="exhaustive pairwise enumeration over a URL universe against an independent 'lies under' predicate (reference PSL for suffix-aware chains)",
+   text="All ordered pairs of a 1,792-URL (quick) / 7,128-URL (thorough) universe x suffix_aware: forward (under => stems prefix and string prefix), converse (prefix => under) and equivalence of string-prefix and raw stem-prefix. Exhaustive for the universe.",
+   note="Trusted base: under() on reference-split components; vlib/pslref.py over the bundled list for suffix-aware host units.",
+   design="§4 C13"),
+ "C08": dict(
+   technique="differential testing against a reference implementation of the publicsuffix.org algorithm: exhaustive over the bundled list and over all small synthetic rule sets, Hypothesis for random hosts",
+   text="Every bundled rule expanded into hosts (as is, +1/+2 labels, wildcard instantiations incl. labels that start longer rules, proper suffixes) in several input spellings; every set of <=2/3 synthetic rules over a 3-label alphabet x every host of depth <=4 in a fresh SuffixTrie (exhaustive), sampled larger sets; every bundled TLD in all spellings. Exhaustive within the stated bounds.",
+   note="Trusted base: vlib/pslref.py (naive list scan). Hosts on which two exception rules match are skipped (the algorithm is silent).",
+   design="§4 C08"),
+ "C09": dict(
+   technique="model-based testing: exhaustive short add-histories + Hypothesis long histories against a set-of-label-tuples model",
+   text="Every add sequence up to the stated length over all hostnames of depth<=3 on 2 and 3 labels, all match queries in 4 URL forms, len and iteration after the last add (enumeration prefix-closed); random histories with case/punycode/IDN spellings checked after every step. Exhaustive within bounds.",
+   note="Trusted base: brute-force set model (suffix-wise ancestor test, minimal cover).",
+   design="§4 C09"),
  "C01": dict(
    technique="property-based testing: structured URL grammar (Hypothesis) + exhaustive token sweep, reference RFC-3986 parser/byte decoder as oracle",
    text="Generated-input search: every token class in every component, exhaustive single-token (quick) / token-pair (thorough) sweep over six positions, random structures; input and output are both reduced to a semantic normal form by an independent parser and compared component-wise. Exploration, exhaustive only for the sweep bounds.",
